@@ -464,7 +464,7 @@ def run(R):
                    "the model; damaged files only alter low-order bytes")
 
 
-def replay(R, payload):
+def _replay_once(R, payload):
     case = payload.get("case") or {}
     if not case and payload.get("disagreements"):
         case = payload["disagreements"][0].get("case") or {}
@@ -500,3 +500,16 @@ def replay(R, payload):
     # other streams (direct MiniShard objects, damaged files, voxels): re-run the whole check
     run(R)
     return bool(R.violations or R.disagreements)
+
+
+def replay(R, payload):
+    """The history variant (plain / reused caller buffer / second scale after a
+    close) is drawn from the PRNG in a run: a replay tries each of them."""
+    for mode in (0.9, 0.1, 0.3):
+        R.extra["_force_mode"] = mode
+        try:
+            if _replay_once(R, payload):
+                return True
+        finally:
+            R.extra.pop("_force_mode", None)
+    return False
